@@ -92,11 +92,8 @@ def check_dbl_law(X, Y, Z, Tt, a1):
 
 
 def run_case(which, workroot):
-    wd = os.path.join(workroot, "ladder-ed25519")
-    ll = os.path.join(wd, "linked.ll")
-    if not os.path.exists(ll):
-        build.build_module(wd, ["crypto_core/ed25519/ref10/ed25519_ref10.c", "sodium/utils.c"], opt=build.OPT + ["-fno-inline-functions"])
-    mod = ir.parse_module(open(ll).read())
+    from .ladder import get_module, ED25519_UNITS
+    mod = get_module(workroot, "ladder-ed25519", ED25519_UNITS)
     T.MODE = "term"
     it = interp.Interp(mod, None)
     env = Env(it)
